@@ -105,3 +105,46 @@ fn __verif_n_c04_entry_cost() {
         Some((input, why)) => println!("VERIF-N id=N/n_c04_entry_cost/entry_cost status=fail key=\"{}\" input=\"{input}\" detail=\"{input}: {}\" bound=\"{bound}\"", why.replace('"', "'"), why.replace('"', "'")),
     }
 }
+
+/// The inequality of the property on runs of the repository's own gas-metered programs (loops with
+/// withdraw_gas): 100*steps + 70*range_checks + sum_b price(b)*uses(b) <= (g - gas_left) + 100.
+#[test]
+fn __verif_n_c04_trace_cost_covered() {
+    std::panic::set_hook(Box::new(|_| {}));
+    let mut root = std::path::PathBuf::from(env!("CARGO_MANIFEST_DIR"));
+    root.pop();
+    root.pop();
+    // (file, function name fragment, argument lists)
+    let progs: Vec<(&str, &str, Vec<Vec<u64>>)> = vec![
+        ("tests/test_data/fib_gas.sierra", "fib", vec![vec![1, 1, 0], vec![1, 1, 1], vec![1, 1, 7], vec![1, 1, 40], vec![2, 3, 100]]),
+        ("tests/test_data/hash_chain_gas.sierra", "hash_chain", vec![vec![0], vec![1], vec![3], vec![20]]),
+    ];
+    let mut cases = 0u64;
+    let mut fail: Option<(String, String)> = None;
+    'o: for (file, fname, arglists) in progs {
+        let Ok(src) = std::fs::read_to_string(root.join(file)) else { continue };
+        for args in arglists {
+            cases += 1;
+            let what = format!("{file}::{fname}({args:?})");
+            let r = catch_unwind(AssertUnwindSafe(|| -> Option<String> {
+                let runner = SierraCasmRunner::new(ProgramParser::new().parse(&src).ok()?, Some(Default::default()), Default::default(), None).ok()?;
+                let func = runner.find_function(fname).ok()?;
+                let available = 10_000_000usize;
+                let res = runner.run_function_with_starknet_context(func, args.iter().map(|a| Arg::Value(Felt252::from(*a))).collect(), Some(available), Default::default()).ok()?;
+                let left = res.gas_counter?.to_usize()?;
+                let b = &res.used_resources.basic_resources;
+                let uses = |n: BuiltinName| b.builtin_instance_counter.get(&n).copied().unwrap_or(0);
+                let trace = 100 * b.n_steps + 70 * uses(BuiltinName::range_check) + 4050 * uses(BuiltinName::pedersen) + 491 * uses(BuiltinName::poseidon) + 583 * uses(BuiltinName::bitwise);
+                if trace > (available - left) + 100 { return Some(format!("undercharged: trace cost {trace} ({} steps) > gas charged {} + 100", b.n_steps, available - left)); }
+                None
+            }));
+            let why = match r { Err(_) => Some("panic".to_string()), Ok(w) => w };
+            if let Some(w) = why { fail = Some((what, w)); break 'o; }
+        }
+    }
+    let bound = "fib_gas.sierra x 5 inputs, hash_chain_gas.sierra x 4 inputs (10^7 gas)";
+    match fail {
+        None => println!("VERIF-N id=N/n_c04_entry_cost/trace_cost_covered status=ok cases={cases} distinct={cases} bound=\"{bound}\""),
+        Some((input, why)) => println!("VERIF-N id=N/n_c04_entry_cost/trace_cost_covered status=fail key=\"{}\" input=\"{input}\" detail=\"{input}: {}\" bound=\"{bound}\"", why.replace('"', "'"), why.replace('"', "'")),
+    }
+}
